@@ -78,22 +78,6 @@ fn show_item(i: &Item) -> String {
     format!("{{{}}} at byte {} line {}", parts.join(" | "), i.byte, i.line)
 }
 
-/// items at or after `cursor` whose error a record-set read may report: every item that accepts
-/// an error, as long as everything before it can be a record (the batch is given up)
-fn errors_ahead(model: &Model, cursor: usize) -> Vec<usize> {
-    let mut v = vec![];
-    for j in cursor..model.items.len() {
-        let it = &model.items[j];
-        if !it.errs.is_empty() {
-            v.push(j);
-        }
-        if !it.is_rec() {
-            break;
-        }
-    }
-    v
-}
-
 pub fn msg_ok(e: &ErrObs, msg: &str) -> Result<(), String> {
     let esc = |b: u8| (b as char).escape_default().to_string();
     let need: Vec<String> = match e {
@@ -156,6 +140,12 @@ pub fn msg_ok(e: &ErrObs, msg: &str) -> Result<(), String> {
 }
 
 pub fn judge(model: &Model, scn: &ReadScn, log: &RunLog, o: &JudgeOpts) -> Vec<Violation> {
+    judge_with_cursors(model, scn, log, o).0
+}
+
+/// Also returns, per step, the model cursor *before* the step when it is known exactly.
+pub fn judge_with_cursors(model: &Model, scn: &ReadScn, log: &RunLog, o: &JudgeOpts) -> (Vec<Violation>, Vec<Option<usize>>) {
+    let mut cursors: Vec<Option<usize>> = vec![];
     let mut out: Vec<Violation> = vec![];
     let p = o.prop;
     let mut phase = Phase::Exact(0);
@@ -184,6 +174,10 @@ pub fn judge(model: &Model, scn: &ReadScn, log: &RunLog, o: &JudgeOpts) -> Vec<V
     let mut errored_next = false;
     for (si, step) in log.steps.iter().enumerate() {
         errored = errored_next;
+        cursors.push(match phase {
+            Phase::Exact(c) | Phase::AtEnd(c) => Some(c),
+            _ => None,
+        });
         let fault = !step.seam.faults.is_empty();
         let refused = step.seam.grows.iter().any(|g| g.1.is_none());
         let at = format!("step {} {:?}", si, step.op);
@@ -378,7 +372,7 @@ pub fn judge(model: &Model, scn: &ReadScn, log: &RunLog, o: &JudgeOpts) -> Vec<V
         }
     }
     let _ = scn;
-    out
+    (out, cursors)
 }
 
 
@@ -517,9 +511,11 @@ fn judge_error(
             }
             match phase {
                 Phase::Exact(c) => {
-                    let cands: Vec<usize> = if is_set {
-                        errors_ahead(model, c)
-                    } else if model.items[c].errs.is_empty() {
+                    // A set read delivers every record that precedes an invalid one before it
+                    // reports the error ("nothing is lost", C04), so like a single read it may
+                    // only report the error of the item at the cursor.
+                    let _ = is_set;
+                    let cands: Vec<usize> = if model.items[c].errs.is_empty() {
                         vec![]
                     } else {
                         vec![c]
